@@ -302,9 +302,10 @@ class ExponentialCoalescent(Distribution):
             self.theta * self.growth
         )
         lchoose2 = lineage_count * (lineage_count - 1) / 2.0
-        log_thetas = torch.log(
-            self.theta * torch.exp(-heights_sorted * self.growth)
-        ) * (node_mask_sorted == -1)
+        # log(theta * exp(-growth * t)) without going through exp
+        log_thetas = (torch.log(self.theta) - heights_sorted * self.growth) * (
+            node_mask_sorted == -1
+        )
         return torch.sum(-lchoose2 * integral - log_thetas[..., 1:], -1, keepdim=True)
 
 
